@@ -315,7 +315,17 @@ func (e *Exec) unop(x *ssa.UnOp, a Value) Value {
 		if len(e.spec) > 0 {
 			panic(specAbort{"recv"})
 		}
-		ch := a.(*ChanV)
+		ch, isCh := a.(*ChanV)
+		if !isCh {
+			panic(pathEnd{"blocked", "receive on opaque channel"})
+		}
+		if len(ch.Buf) == 0 && ch.Closed {
+			z := e.zero(x.X.Type().Underlying().(*types.Chan).Elem())
+			if x.CommaOk {
+				return TupleV{z, e.tf.ff}
+			}
+			return z
+		}
 		if ch.Nil || len(ch.Buf) == 0 {
 			panic(pathEnd{"blocked", "receive on empty channel"})
 		}
@@ -1115,6 +1125,9 @@ func (e *Exec) builtin(name string, args []Value, c *ssa.CallCommon) Value {
 	case "print", "println":
 		return nil
 	case "close":
+		if ch, ok := args[0].(*ChanV); ok {
+			ch.Closed = true
+		}
 		return nil
 	case "recover":
 		return &IfaceV{}
